@@ -741,13 +741,16 @@ def decorate_with_checker(func: CallableT) -> CallableT:
                 in_progress = set()
                 _IN_PROGRESS.set(in_progress)
 
+            # If the wrapper is already checking the contracts for the wrapped function, avoid a recursive loop
+            # by skipping any subsequent contract checks for the same function.
+            #
+            # This short-cut must not be a part of the try-finally block below: the function remains in progress
+            # until the call which is actually checking the contracts is finished.
+            if id_func in in_progress:
+                return await func(*args, **kwargs)
+
             # Use try-finally instead of ExitStack for performance.
             try:
-                # If the wrapper is already checking the contracts for the wrapped function, avoid a recursive loop
-                # by skipping any subsequent contract checks for the same function.
-                if id_func in in_progress:
-                    return await func(*args, **kwargs)
-
                 in_progress.add(id_func)
 
                 (preconditions, snapshots, postconditions) = _unpack_pre_snap_posts(
@@ -815,13 +818,16 @@ def decorate_with_checker(func: CallableT) -> CallableT:
                 in_progress = set()
                 _IN_PROGRESS.set(in_progress)
 
+            # If the wrapper is already checking the contracts for the wrapped function, avoid a recursive loop
+            # by skipping any subsequent contract checks for the same function.
+            #
+            # This short-cut must not be a part of the try-finally block below: the function remains in progress
+            # until the call which is actually checking the contracts is finished.
+            if id_func in in_progress:
+                return func(*args, **kwargs)
+
             # Use try-finally instead of ExitStack for performance.
             try:
-                # If the wrapper is already checking the contracts for the wrapped function, avoid a recursive loop
-                # by skipping any subsequent contract checks for the same function.
-                if id_func in in_progress:
-                    return func(*args, **kwargs)
-
                 in_progress.add(id_func)
 
                 (preconditions, snapshots, postconditions) = _unpack_pre_snap_posts(
